@@ -34,7 +34,7 @@ class Env:
         return I, ctx
 
 
-class JobTimeout(Exception):
+class JobTimeout(BaseException):
     pass
 
 
@@ -47,7 +47,7 @@ def _worker(job):
     res = dict(name=job['name'], status='inconclusive', cex=[], obligations=0, samples=[], stats={}, err=None)
     limit = int(getattr(_ENV.mod, 'JOB_TIMEOUT_S', {}).get(_ENV.tier, 300 if _ENV.tier == 'quick' else 3600))
     signal.signal(signal.SIGALRM, _alarm)
-    signal.alarm(limit)
+    signal.setitimer(signal.ITIMER_REAL, limit, 5)
     try:
         r = _ENV.mod.run_job(_ENV, job)
         res.update(r)
@@ -58,7 +58,7 @@ def _worker(job):
     except Exception:
         res['err'] = traceback.format_exc()
     finally:
-        signal.alarm(0)
+        signal.setitimer(signal.ITIMER_REAL, 0)
     res['wall'] = time.time() - t
     return res
 
